@@ -54,7 +54,9 @@ def _splice_class(ctx: Ctx, ob: Obligation) -> Any:
         return False
     pos, kw = ast.literal_eval(m.group(1)), ast.literal_eval(m.group(2))
     first3 = {"input", "weight", "bias", "query", "key", "value"}
-    in_class = len(pos) > 3 or any(k in first3 for k in kw) or "scale_power" in pos + kw
+    target = re.search(r"_replace_with_quantised\[(.*?)\]", ob.name).group(1)
+    too_many_positional = len(pos) > (4 if target == "U.linear" else 3)  # U.linear(x, w, b, constraint) works
+    in_class = too_many_positional or any(k in first3 for k in kw) or "scale_power" in pos + kw
     return None if in_class else False
 
 
